@@ -122,6 +122,8 @@ type sut struct {
 	stalled  bool
 }
 
+var stallsConfirmed int
+
 func newSut(root, sentinel string, capEv uint, out *bufio.Writer) (*sut, error) {
 	fds, err := unix.Socketpair(unix.AF_UNIX, unix.SOCK_SEQPACKET|unix.SOCK_CLOEXEC|unix.SOCK_NONBLOCK, 0)
 	if err != nil {
@@ -388,7 +390,13 @@ func (s *sut) process(parts string, inj []rawRec) {
 		return
 	}
 	var outs []string
-	timeout := time.After(60 * time.Second) // a stalled reader stays stalled; a slow machine does not
+	// a stalled reader stays stalled; a slow machine does not: the first stall of a run is confirmed by a long wait,
+	// after that the verdict is established and the short wait is trusted again
+	wait := 60 * time.Second
+	if stallsConfirmed > 0 || os.Getenv("VERIF_STALL_CONFIRMED") != "" { // set while minimising a history whose stall was confirmed
+		wait = 5 * time.Second
+	}
+	timeout := time.After(wait)
 	status := "ok"
 loop:
 	for {
@@ -408,6 +416,7 @@ loop:
 		case <-timeout:
 			status = "stalled"
 			s.stalled = true
+			stallsConfirmed++
 			break loop
 		}
 	}
